@@ -24,6 +24,7 @@ import (
 	"strconv"
 	"strings"
 	"sync"
+	"sync/atomic"
 	"time"
 
 	"go.dedis.ch/kyber/v3/util/key"
@@ -40,6 +41,59 @@ type C10Msg struct {
 }
 
 var c10msgType = network.RegisterMessage(&C10Msg{})
+
+// C10Big fills socket buffers.
+type C10Big struct {
+	B []byte
+}
+
+var _ = network.RegisterMessage(&C10Big{})
+
+// a protocol of the usual channel-based kind: Dispatch blocks until Shutdown
+const c10protoName = "C10BlockingDispatch"
+
+var (
+	c10dispatching int32
+	c10protoMu     sync.Mutex
+	c10protos      = map[string]*c10proto{}
+)
+
+type c10proto struct {
+	*onet.TreeNodeInstance
+	stop chan struct{}
+	once sync.Once
+}
+
+func (p *c10proto) Start() error { return nil }
+func (p *c10proto) Dispatch() error {
+	atomic.AddInt32(&c10dispatching, 1)
+	defer atomic.AddInt32(&c10dispatching, -1)
+	<-p.stop
+	return nil
+}
+func (p *c10proto) Shutdown() error {
+	p.once.Do(func() { close(p.stop) })
+	return nil
+}
+
+func init() {
+	onet.GlobalProtocolRegister(c10protoName, func(n *onet.TreeNodeInstance) (onet.ProtocolInstance, error) {
+		p := &c10proto{TreeNodeInstance: n, stop: make(chan struct{})}
+		c10protoMu.Lock()
+		c10protos[n.Token().ID().String()] = p
+		c10protoMu.Unlock()
+		return p, nil
+	})
+}
+
+// c10dispatchers waits until the number of running Dispatch routines is what it should be
+// (they end asynchronously after Shutdown) and returns what it is
+func c10dispatchers(want int) int {
+	for i := 0; i < 500 && int(atomic.LoadInt32(&c10dispatching)) != want; i++ {
+		time.Sleep(2 * time.Millisecond)
+	}
+	return int(atomic.LoadInt32(&c10dispatching))
+}
 
 type c10thr struct {
 	name, kind string
@@ -82,9 +136,13 @@ type c10ctl struct {
 	stopReturned bool
 	lateDisp     int
 	nstops       int
+	trace        []string // every scheduling point passed, for failure messages
+	nDial        int      // connections R has opened (connect:before-register)
+	nAccepted    int      // accept callbacks of peers that have run to their end
 }
 
 var c10localPort int
+var c10t0 = time.Now()
 
 var (
 	c10ctls    sync.Map // *network.Router -> *c10ctl (R and its peers)
@@ -126,6 +184,22 @@ func (ctl *c10ctl) park(gate *chan struct{}) {
 func (ctl *c10ctl) hook(name string, r *network.Router, c network.Conn) {
 	ctl.mu.Lock()
 	defer ctl.mu.Unlock()
+	if len(ctl.trace) < 4000 {
+		who := "R"
+		if p, ok := ctl.byRouter[r]; ok {
+			who = fmt.Sprintf("P%d", p.k)
+		}
+		rem := ""
+		if c != nil {
+			rem = fmt.Sprintf(" %s>%s %p", c.Local(), c.Remote(), c)
+		}
+		ctl.trace = append(ctl.trace, fmt.Sprintf("%dms ", time.Since(c10t0).Milliseconds())+who+" "+name+rem)
+	}
+	if _, isPeer := ctl.byRouter[r]; isPeer && name == "accept:exit" {
+		ctl.nAccepted++
+	} else if !isPeer && name == "connect:before-register" {
+		ctl.nDial++
+	}
 	if p, ok := ctl.byRouter[r]; ok {
 		// a peer's router: remember its end of the connection, never park
 		if name == "connect:before-register" || name == "accept:before-register" {
@@ -252,6 +326,14 @@ func (ctl *c10ctl) openPeers() []int {
 	return out
 }
 
+// peersSettled: every connection R has opened has been through the peer's accept callback
+// (a peer lists a connection only then; before, its table says nothing)
+func (ctl *c10ctl) peersSettled() bool {
+	ctl.mu.Lock()
+	defer ctl.mu.Unlock()
+	return ctl.nAccepted >= ctl.nDial
+}
+
 func (ctl *c10ctl) waitFor(d time.Duration, ok func() bool) bool {
 	end := time.Now().Add(d)
 	for {
@@ -303,6 +385,10 @@ func c10setup(tcp bool, id string) (*c10ctl, error) {
 	c10hookSet.Do(func() {
 		log.SetDebugVisible(0)
 		log.OutputToBuf()
+		if os.Getenv("C10_DEBUG") != "" {
+			log.OutputToOs()
+			log.SetDebugVisible(3)
+		}
 		network.VerifSetRouterHook(c10hook)
 	})
 	ctl := &c10ctl{tcp: tcp, peers: map[int]*c10peer{}, byRouter: map[*network.Router]*c10peer{}, byGoid: map[int64]*c10thr{},
@@ -422,7 +508,8 @@ func c10exec(c *h.Ctx, cs *h.Case) {
 	var sh *c10shadow
 	var cl *fix.Cluster
 	var tree *onet.Tree
-	var started []*fix.Rec
+	var started []*c10proto
+	bound := 0 // protocol instances started successfully and not finished (as the harness knows)
 	var doneSet = map[int]bool{}
 	churned := 0
 	churnT0 := time.Now()
@@ -504,7 +591,7 @@ func c10exec(c *h.Ctx, cs *h.Case) {
 					bad()
 					continue
 				}
-				var recs []*fix.Rec
+				var recs []*c10proto
 				for j := 0; j < n; j++ {
 					// a chain of j+2 nodes over the two servers: a tree id of its own
 					parent, member := []int{-1}, []int{0}
@@ -513,17 +600,19 @@ func c10exec(c *h.Ctx, cs *h.Case) {
 						member = append(member, x%2)
 					}
 					t, _ := fix.BuildTree(cl.Roster, parent, member)
-					pi, err := ov.StartProtocol(fix.ProtoName, t, onet.NilServiceID)
+					pi, err := ov.StartProtocol(c10protoName, t, onet.NilServiceID)
 					if err == nil && pi != nil {
-						if rec := fix.RecOf(pi.Token()); rec != nil {
+						c10protoMu.Lock()
+						if rec := c10protos[pi.Token().ID().String()]; rec != nil {
 							recs = append(recs, rec)
 						}
+						c10protoMu.Unlock()
 					}
 					started = append(started, nil)
 				}
 				// all of them done in one go: their trees' removal timers come due together
 				for _, rec := range recs {
-					rec.Tni.Done()
+					rec.Done()
 				}
 				churnT0 = time.Now()
 				churned += n
@@ -536,12 +625,15 @@ func c10exec(c *h.Ctx, cs *h.Case) {
 				res := "ok"
 				done := make(chan bool, 1)
 				go func() {
-					pi, err := ov.StartProtocol(fix.ProtoName, tree, onet.NilServiceID)
+					pi, err := ov.StartProtocol(c10protoName, tree, onet.NilServiceID)
 					if err != nil || pi == nil {
 						res = "err"
 						started = append(started, nil)
 					} else {
-						started = append(started, fix.RecOf(pi.Token()))
+						c10protoMu.Lock()
+						started = append(started, c10protos[pi.Token().ID().String()])
+						c10protoMu.Unlock()
+						bound++
 					}
 					done <- true
 				}()
@@ -553,7 +645,11 @@ func c10exec(c *h.Ctx, cs *h.Case) {
 					return
 				}
 				n := ov.VerifInstanceCount()
-				cs.Impl = append(cs.Impl, fmt.Sprintf("start=%s insts=%d", res, n))
+				nd := c10dispatchers(bound)
+				cs.Impl = append(cs.Impl, fmt.Sprintf("start=%s insts=%d dispatchers=%d", res, n, nd))
+				if nd > n {
+					cs.Fail("dispatch-goroutine-left-behind", fmt.Sprintf("%d Dispatch routine(s) running for %d listed instance(s) after a start that returned %s", nd, n, res))
+				}
 				if closedOnce && (res == "ok" || n != 0) {
 					cs.Fail("instance-after-close", fmt.Sprintf("a protocol start after Server.Close returned: start=%s, %d instance(s) listed on the closed server", res, n))
 				}
@@ -564,8 +660,11 @@ func c10exec(c *h.Ctx, cs *h.Case) {
 					continue
 				}
 				doneSet[i] = true
-				started[i].Tni.Done()
-				cs.Impl = append(cs.Impl, fmt.Sprintf("insts=%d", ov.VerifInstanceCount()))
+				if !closedOnce {
+					bound--
+				}
+				started[i].Done()
+				cs.Impl = append(cs.Impl, fmt.Sprintf("insts=%d dispatchers=%d", ov.VerifInstanceCount(), c10dispatchers(bound)))
 			case "srvclose":
 				if len(tk) != 1 {
 					bad()
@@ -587,8 +686,13 @@ func c10exec(c *h.Ctx, cs *h.Case) {
 					return
 				}
 				closedOnce = true
+				bound = 0
 				n := ov.VerifInstanceCount()
-				cs.Impl = append(cs.Impl, fmt.Sprintf("close=%s insts=%d", res, n))
+				nd := c10dispatchers(0)
+				cs.Impl = append(cs.Impl, fmt.Sprintf("close=%s insts=%d dispatchers=%d", res, n, nd))
+				if nd != 0 {
+					cs.Fail("dispatch-goroutine-left-behind", fmt.Sprintf("%d Dispatch routine(s) still running after Server.Close returned", nd))
+				}
 				// oracle: after Close returned no instance exists; evidence: reader goroutines
 				if n != 0 {
 					cs.Fail("instance-after-close", fmt.Sprintf("%d protocol instance(s) listed on the closed server", n))
@@ -606,6 +710,31 @@ func c10exec(c *h.Ctx, cs *h.Case) {
 			bad()
 			continue
 		}
+		if tk[0] == "stress" || tk[0] == "stall" {
+			ctl.mu.Lock()
+			fresh := len(ctl.threads) == 0 && len(ctl.peers) == 0
+			ctl.mu.Unlock()
+			if tk[0] == "stall" {
+				if len(tk) != 2 || tk[1] != "tcp" || !ctl.tcp || !fresh {
+					bad()
+					continue
+				}
+				cs.Impl = append(cs.Impl, c10stall(ctl, cs))
+			} else {
+				n, e1 := strconv.Atoi(tk[1])
+				m, e2 := 0, error(nil)
+				if len(tk) == 3 {
+					m, e2 = strconv.Atoi(tk[2])
+				}
+				if len(tk) != 3 || e1 != nil || e2 != nil || n < 0 || m < 0 || n > 64 || m > 64 || !fresh {
+					bad()
+					continue
+				}
+				cs.Impl = append(cs.Impl, c10stress(ctl, cs, id, n, m, c))
+			}
+			outcome = append(outcome, cs.Impl[len(cs.Impl)-1])
+			continue
+		}
 		if tk[0] == "fin" {
 			if len(tk) != 1 {
 				bad()
@@ -613,7 +742,7 @@ func c10exec(c *h.Ctx, cs *h.Case) {
 			}
 			want := sh.openPeers()
 			if !diverged {
-				ctl.waitFor(2500*time.Millisecond, func() bool { return fmt.Sprint(ctl.openPeers()) == fmt.Sprint(want) })
+				ctl.waitFor(2500*time.Millisecond, func() bool { return ctl.peersSettled() && fmt.Sprint(ctl.openPeers()) == fmt.Sprint(want) })
 			}
 			open, rest, view := ctl.openPeers(), ctl.rest(), ctl.view()
 			cs.Impl = append(cs.Impl, fmt.Sprintf("open=%s rest=%v %s", h.Ints(open), rest, view))
@@ -814,7 +943,6 @@ func c10exec(c *h.Ctx, cs *h.Case) {
 		cs.Impl = append(cs.Impl, ctl.view())
 	}
 	if cl != nil {
-		fix.DoneAll()
 		for _, s := range cl.Servers {
 			s.Close()
 		}
@@ -867,7 +995,7 @@ func c10exec(c *h.Ctx, cs *h.Case) {
 		cs.Fail("dispatch-after-stop-returned", fmt.Sprintf("%d message(s) dispatched after Router.Stop had returned", late))
 	}
 	// every peer must see its connections closed now
-	if !ctl.waitFor(3*time.Second, func() bool { return len(ctl.openPeers()) == 0 }) {
+	if !ctl.waitFor(3*time.Second, func() bool { return ctl.peersSettled() && len(ctl.openPeers()) == 0 }) {
 		cs.Fail("connection-left-open-after-stop", fmt.Sprintf("after Stop and with every goroutine finished, peer(s) %v still hold an open connection", ctl.openPeers()))
 	}
 	// runtime evidence only: port re-binding, goroutine census
@@ -907,6 +1035,169 @@ func c10exec(c *h.Ctx, cs *h.Case) {
 		cs.Outcome += " last:" + c10abstract(cs.Impl[len(cs.Impl)-1])
 	}
 	cs.Outcome += " evidence:" + ev
+}
+
+// c10stress: n established connections, then m Sends to new peers and Stop, all free-running.
+func c10stress(ctl *c10ctl, cs *h.Case, id string, n, m int, c *h.Ctx) string {
+	ctl.freeAll() // no parking: real concurrency
+	var peers []*c10peer
+	for k := 1; k <= n+m; k++ {
+		p, err := ctl.peer(k, id)
+		if err != nil {
+			cs.Fail("harness", err.Error())
+			return "harness-error"
+		}
+		peers = append(peers, p)
+	}
+	for k := 0; k < n; k++ {
+		if _, err := ctl.r.Send(peers[k].r.ServerIdentity, &C10Msg{N: k}); err != nil {
+			cs.Fail("harness", "cannot establish a connection: "+err.Error())
+			return "harness-error"
+		}
+	}
+	start := make(chan struct{})
+	var wg sync.WaitGroup
+	for k := n; k < n+m; k++ {
+		wg.Add(1)
+		go func(k int) {
+			defer wg.Done()
+			<-start
+			// spread the registrations over the time Stop needs for its closing loop
+			for i := 0; i < (k-n)*c10stressSpin; i++ {
+				runtime.Gosched()
+			}
+			ctl.r.Send(peers[k].r.ServerIdentity, &C10Msg{N: k})
+		}(k)
+	}
+	stopped := make(chan bool, 1)
+	go func() {
+		<-start
+		ctl.r.Stop()
+		ctl.mu.Lock()
+		ctl.stopReturned = true
+		ctl.mu.Unlock()
+		stopped <- true
+	}()
+	close(start)
+	isStopped := false
+	select {
+	case <-stopped:
+		isStopped = true
+	case <-time.After(5 * time.Second):
+		cs.Fail("hang:stop", fmt.Sprintf("Router.Stop racing with %d Sends that have to connect (and %d established connections) did not return within 5 s", m, n))
+	}
+	sendsDone := make(chan bool, 1)
+	go func() { wg.Wait(); sendsDone <- true }()
+	select {
+	case <-sendsDone:
+	case <-time.After(5 * time.Second):
+		cs.Fail("hang:thread", "a Send racing with Stop never returned")
+	}
+	ctl.waitFor(3*time.Second, func() bool { return ctl.peersSettled() && len(ctl.openPeers()) == 0 })
+	open := ctl.openPeers()
+	if isStopped && len(open) > 0 {
+		ctl.mu.Lock()
+		var tr []string
+		for _, k := range open {
+			addr := ctl.peers[k].r.ServerIdentity.Address.NetworkAddress()
+			for _, e := range ctl.trace {
+				if strings.Contains(e, addr) || strings.HasPrefix(e, fmt.Sprintf("P%d ", k)) || strings.HasPrefix(e, "R stop") {
+					tr = append(tr, e)
+				}
+			}
+		}
+		ctl.mu.Unlock()
+		if os.Getenv("C10_DEBUG") != "" {
+			ctl.mu.Lock()
+			trc := append([]string{}, ctl.trace...)
+			ctl.mu.Unlock()
+			for _, e := range trc {
+				fmt.Fprintln(os.Stderr, "TRACE", e)
+			}
+			for _, k := range open {
+				fmt.Fprintln(os.Stderr, "OPENPEER", k, ctl.peers[k].r.ServerIdentity.Address, ctl.peers[k].r.VerifRegistered(), time.Since(c10t0).Milliseconds())
+			}
+			buf := make([]byte, 1<<21)
+			n := runtime.Stack(buf, true)
+			for _, g := range strings.Split(string(buf[:n]), "\n\n") {
+				if strings.Contains(g, "handleConn") || strings.Contains(g, "Router") {
+					fmt.Fprintln(os.Stderr, "GOROUTINE", g)
+				}
+			}
+		}
+		cs.Fail("connection-left-open-after-stop", fmt.Sprintf("Stop has returned, every Send has returned, and peer(s) %v still hold an open connection to the router; trace: %s", open, strings.Join(tr, "; ")))
+	}
+	ctl.mu.Lock()
+	late := ctl.lateDisp
+	ctl.mu.Unlock()
+	return fmt.Sprintf("stopped=%v open=%s late=%d", isStopped, h.Ints(open), late)
+}
+
+var c10stressSpin = 3
+
+// c10stall: a Send blocked on a peer that does not read, then Stop.
+func c10stall(ctl *c10ctl, cs *h.Case) string {
+	ctl.freeAll()
+	ln, err := net.Listen("tcp", "127.0.0.1:0")
+	if err != nil {
+		cs.Fail("harness", err.Error())
+		return "harness-error"
+	}
+	defer ln.Close()
+	held := make(chan net.Conn, 4)
+	go func() {
+		for {
+			c, err := ln.Accept()
+			if err != nil {
+				return
+			}
+			held <- c // accepted and never read
+		}
+	}()
+	kp := key.NewKeyPair(fix.Suite)
+	si := network.NewServerIdentity(kp.Public, network.NewTCPAddress(ln.Addr().String()))
+	sent := make(chan error, 1)
+	go func() {
+		big := &C10Big{B: make([]byte, 8<<20)}
+		_, err := ctl.r.Send(si, big, big, big, big, big, big)
+		sent <- err
+	}()
+	// the Send must be stuck in the middle of its data by now
+	time.Sleep(400 * time.Millisecond)
+	select {
+	case err := <-sent:
+		cs.Fail("harness", fmt.Sprintf("the Send to the stalled peer did not block (%v)", err))
+		return "harness-error"
+	default:
+	}
+	stopped := make(chan bool, 1)
+	go func() { ctl.r.Stop(); stopped <- true }()
+	res := "stop=ret"
+	select {
+	case <-stopped:
+	case <-time.After(6 * time.Second):
+		res = "stop=hang"
+		cs.Fail("hang:stop", "Router.Stop did not return within 6 s while a Send is blocked on a peer that does not read")
+	}
+	select {
+	case err := <-sent:
+		if err != nil {
+			res += " send=err"
+		} else {
+			res += " send=ok"
+		}
+	case <-time.After(3 * time.Second):
+		res += " send=hang"
+		cs.Fail("hang:thread", "the Send blocked on the stalled peer did not return after Stop")
+	}
+	for len(held) > 0 {
+		(<-held).Close()
+	}
+	// the stalled peer is no router: its side of the connection is never "accepted"
+	ctl.mu.Lock()
+	ctl.nAccepted = ctl.nDial
+	ctl.mu.Unlock()
+	return res
 }
 
 // c10noteDiverged leaves a mark next to the parent's work directory, so that the generator
@@ -1064,6 +1355,16 @@ func c10gen(c *h.Ctx, yield func(*h.Case)) {
 		}
 		ops = append(ops, "fin")
 		emit("random", ops)
+	}
+	// free-running races: established connections, Sends that connect and Stop at the same time
+	for _, tr := range transports {
+		for i := 0; i < c.Pick(6, 40); i++ {
+			emit("stress", []string{"init " + tr, fmt.Sprintf("stress %d %d", 8+r.Intn(24), 8+r.Intn(24))})
+		}
+	}
+	// Stop while a Send is blocked on a peer that does not read (TCP)
+	for i := 0; i < c.Pick(1, 3); i++ {
+		emit("stalled-peer", []string{"init tcp", "stall tcp"})
 	}
 	// server level: protocol starts before / after Close, Close twice
 	for _, tr := range transports {
